@@ -53,6 +53,7 @@ type replayFile struct {
 	Key      string    `json:"key"`
 	Detail   string    `json:"detail"`
 	Tape     []uint32  `json:"tape"`
+	Window   []int     `json:"window,omitempty"` // [from,to]: run indices to execute in one process when no single tape reproduces
 	TapeLen0 int       `json:"tape_len_before_shrinking"`
 	Trace    []string  `json:"trace"`
 	Race     string    `json:"race_report,omitempty"`
@@ -252,24 +253,40 @@ func cmdCheck(id string, tier string, replayPath string) int {
 			sv, tries := shrink(bin, id, v, 90*time.Second)
 			rf := replayFile{Property: id, Seed: seed, RunIndex: v.I, RunSeed: v.Seed, Tier: tier, Class: sv.Viol.Class, Key: sv.Viol.Key,
 				Detail: sv.Viol.Detail, Tape: sv.Tape, TapeLen0: tape0, Trace: sv.Sample, Race: sv.Race}
-			if len(sv.Tape) == 0 {
-				rf.Note = "no tape could be recorded for this run; replay re-executes run_index of seed"
-			}
 			os.MkdirAll(filepath.Join(verifDir, "replays"), 0o755)
 			path := filepath.Join(verifDir, "replays", fmt.Sprintf("%s-%d-%d.json", id, seed, v.I))
 			jb, _ := json.MarshalIndent(rf, "", " ")
 			os.WriteFile(path, jb, 0o644)
 			replayRel = path
-			// confirm in a fresh process
+			// confirm in a fresh process; when the single run does not reproduce on its own
+			// (the violation depends on what the same process executed before), fall back
+			// to the smallest window of consecutive runs ending at the failing one
 			confirmed := false
 			if len(sv.Tape) > 0 {
 				if f, _, err := replayOnce(bin, id, sv.Tape); err == nil && f != nil && f.Viol.Class == sv.Viol.Class {
 					confirmed = true
 				}
-			} else {
-				cr := runChunk(bin, id, seed, v.I, v.I+1, "asc")
-				confirmed = cr.viol != nil && cr.viol.Viol.Class == v.Viol.Class
 			}
+			if !confirmed {
+				rf.Tape = nil
+				for k := 0; ; k = k*2 + 1 {
+					from := v.I - k
+					if from < v.From {
+						from = v.From
+					}
+					if replayWindow(bin, id, seed, from, v.I, v.Viol.Class) {
+						confirmed = true
+						rf.Window = []int{from, v.I}
+						rf.Note = "replay executes run indices window[0]..window[1] of seed in one process"
+						break
+					}
+					if from == v.From {
+						break
+					}
+				}
+			}
+			jb, _ = json.MarshalIndent(rf, "", " ")
+			os.WriteFile(path, jb, 0o644)
 			fmt.Printf("violation class=%s key=%q (run %d, tape %d -> %d values, %d shrink executions, replay confirmed=%v)\n%s\n",
 				sv.Viol.Class, sv.Viol.Key, v.I, tape0, len(sv.Tape), tries, confirmed, clip(sv.Viol.Detail, 2500))
 			for _, l := range sv.Sample {
@@ -288,6 +305,13 @@ func cmdCheck(id string, tier string, replayPath string) int {
 	return code
 }
 
+// replayWindow executes runs [from,to] in one worker process and reports whether run `to`
+// shows a violation of the given class.
+func replayWindow(bin, prop string, seed uint64, from, to int, class string) bool {
+	cr := runChunk(bin, prop, seed, from, to+1, "asc")
+	return cr.err == nil && cr.viol != nil && cr.viol.I == to && cr.viol.Viol.Class == class
+}
+
 func cmdReplay(p *propDef, bin, path string) int {
 	b, err := os.ReadFile(path)
 	if err != nil {
@@ -303,13 +327,17 @@ func cmdReplay(p *propDef, bin, path string) int {
 		if err != nil {
 			exit2("%v", err)
 		}
-	} else {
+	} else if len(rf.Window) == 2 {
 		tierName = rf.Tier
-		cr := runChunk(bin, p.id, rf.Seed, rf.RunIndex, rf.RunIndex+1, "asc")
+		cr := runChunk(bin, p.id, rf.Seed, rf.Window[0], rf.Window[1]+1, "asc")
 		if cr.err != nil {
 			exit2("%v", cr.err)
 		}
-		f = cr.viol
+		if cr.viol != nil && cr.viol.I == rf.Window[1] {
+			f = cr.viol
+		}
+	} else {
+		exit2("replay file %s holds neither a tape nor a window", path)
 	}
 	if f == nil {
 		fmt.Printf("replay of %s: no violation on this tree\n", path)
